@@ -22,7 +22,7 @@ run() { # prop diff origin name
   local prop=$1 diff=$2 origin=$3 name=$4
   if [ -n "$props" ] && ! echo " $props " | grep -q " $prop "; then return; fi
   ( cd $wt && git apply "$diff" ) || { echo "| $prop | $name | $origin | APPLY-FAILED |" >> $out.tmp; return; }
-  o=$(cd /verif && VERIF_REPO=$wt bin/vcheck $prop --budget $budget 2>&1); rc=$?
+  o=$(cd /verif && VERIF_REPO=$wt VERIF_OUT_DIR=/tmp/verif-mut-out bin/vcheck $prop --budget $budget 2>&1); rc=$?
   git -C $wt checkout -q -- .
   tag=$(echo "$o" | grep -m1 -o 'violation tag=[^ ]*' | sed 's/violation tag=//')
   case $rc in 1) res="caught ($tag)";; 0) res="MISSED";; *) res="ERROR rc=$rc";; esac
